@@ -11,6 +11,7 @@ import (
 	"fmt"
 	"io"
 	"sort"
+	"strings"
 	"testing"
 	"time"
 
@@ -172,9 +173,77 @@ func (s *c11Stream) hotOffsets() []int {
 }
 
 func TestC11(t *testing.T) {
-	V.Rule("unit: concatenations of 1-8 generated messages (tiny ones for complete cut enumeration; large ones with header lines up to 20 KiB clustered around the 4096/8192 reader window, bodies up to 60 KiB incl. SIP-looking text and bodies ending in CR/LF, CRLF or LF line ends, 0-3 keep-alive CRLFs around them) decoded through the product's receive loop from a scripted reader that returns exactly the chosen segments; all single and double cuts for short streams, recipe-generated multi-cuts (random, 1-byte runs, fixed sizes, cuts around every CR/LF/window/body boundary) otherwise; non-trivial = >=2 messages with a cut inside a header line or CRLF, or a line longer than the 4096-byte window; distinct by (stream, segmentation recipe)")
-	V.Assume("header values are compared modulo surrounding white space (which characters are blanks is judged by C01)")
-	V.Require(">=2 messages", "line > 4096 bytes", "cut inside CRLF", "LF-only message", "keep-alive present")
+	V.Rule("unit: concatenations of 1-8 generated messages (tiny ones for complete cut enumeration; large ones with header lines up to 20 KiB clustered around the 4096/8192 reader window, bodies up to 60 KiB incl. SIP-looking text and bodies ending in CR/LF, CRLF or LF line ends, 0-3 keep-alive CRLFs around them) decoded through the product's receive loop from a scripted reader that returns exactly the chosen segments; every header-line length within 20 bytes of the first five multiples of the 4096-byte reader window (CRLF and LF, three positions, three segmentations); all single and double cuts for short streams, recipe-generated multi-cuts (random, 1-byte runs, fixed sizes, cuts around every CR/LF/window/body boundary) otherwise; non-trivial = >=2 messages with a cut inside a header line or CRLF, or a line longer than the 4096-byte window; distinct by (stream, segmentation recipe)")
+	V.Assume("header values are compared modulo surrounding SP/HTAB")
+	V.Require("window-length enumeration", ">=2 messages", "line > 4096 bytes", "cut inside CRLF", "LF-only message", "keep-alive present")
+
+	// every header-line length around the multiples of the reader's 4096-byte
+	// window (the line reader works in window-sized fragments: what matters is
+	// the line length modulo the window), both line ends, long line first /
+	// in the middle / last, a few segmentations
+	t.Run("window-lengths", func(t *testing.T) {
+		if V.replay && V.only == "" {
+			return
+		}
+		n := 0
+		for k := 1; k <= 5; k++ {
+			for d := -20; d <= 20; d++ {
+				for _, eol := range []string{"\r\n", "\n"} {
+					for pos := 0; pos < 3; pos++ {
+						lineLen := k*4096 + d // including the line end
+						name := "X-Long"
+						valLen := lineLen - len(name) - 2 - len(eol)
+						long := AHdr{Kind: hExt, Name: name, SP: " ", Value: strings.Repeat("v", valLen-1) + "w"}
+						mk := func(id string, withLong bool) *AMsg {
+							m := &AMsg{IsReq: true, Method: "MESSAGE", RURI: AURI{Scheme: "sip", Host: "h.test"}, Version: "SIP/2.0", EOL: eol, Body: []byte("body-" + id)}
+							hs := []AHdr{{Kind: hVia, Name: "Via", SP: " ", Vias: []AVia{{Proto: "SIP", Ver: "2.0", Transport: "TCP", Host: "h"}}},
+								{Kind: hCallID, Name: "Call-ID", SP: " ", Value: id}, {Kind: hCL, Name: "Content-Length", SP: " "}, {Kind: hExt, Name: "Subject", SP: " ", Value: "after " + id}}
+							if withLong {
+								switch pos {
+								case 0:
+									hs = append([]AHdr{long}, hs...)
+								case 1:
+									hs = append(hs[:2:2], append([]AHdr{long}, hs[2:]...)...)
+								default:
+									hs = append(hs, long)
+								}
+							}
+							m.Hdrs = hs
+							return m
+						}
+						msgs := []*AMsg{mk("a", false), mk("b", true), mk("c", false)}
+						var stream []byte
+						for _, m := range msgs {
+							stream = append(stream, m.Bytes()...)
+						}
+						desc := fmt.Sprintf("line=%d eol=%q pos=%d", lineLen, eol, pos)
+						if !V.OnlyMatch(desc) {
+							continue
+						}
+						start := len(msgs[0].Bytes())
+						segs := [][]int{nil, {start + lineLen - 2, start + lineLen - 1, start + lineLen}}
+						var fixed []int
+						for i := 4096; i < len(stream); i += 4096 {
+							fixed = append(fixed, i)
+						}
+						segs = append(segs, fixed)
+						for _, cuts := range segs {
+							n++
+							V.Eval()
+							if msg := c11Check(msgs, stream, cuts); msg != "" {
+								V.Violation(t, desc, map[string]any{"header_line_bytes_including_line_end": lineLen, "eol": eol, "long_header_position": pos, "cuts": cuts}, "a header line of %d bytes (line end %q, position %d): %s", lineLen, eol, pos, msg)
+								return
+							}
+						}
+						V.Class("line > 4096 bytes")
+						V.NonTrivial("w|" + desc)
+					}
+				}
+			}
+		}
+		V.Class("window-length enumeration")
+		V.Extra("window_length_decodes", n)
+	})
 
 	rcheck(t, "tiny-all-cuts", V.N(100, 1200), func(rt *rapid.T) {
 		n := rapid.IntRange(1, 3).Draw(rt, "nmsgs")
